@@ -344,6 +344,42 @@ def extra_short_series(ctx, rec):
                 rec.session([steps[0]], dict(CONCS[0], xc="list_none", ac="list_none"))
 
 
+def extra_short_missing(ctx, rec):
+    """C02: series of one, two and three points with EVERY placement of missing values (data; for the position tests both
+    coordinates; for the density test also the depth), several parameter sets per test -- the early-return paths"""
+    import itertools
+    NA = gen_qc.NA
+    g = gen_qc.Gen(ctx.seed + 139, size=3)
+    for fn in [f for f in ALL_FNS if f != "press"]:
+        for rep in range(ctx.pick(3, 12)):
+            proto = g.base(fn)
+            if fn == "valid" and proto["p"]["kind"] != "num":
+                continue
+            if fn == "loc" and (proto["p"]["shapes"] != "same" or len(proto["p"]["bbox"]) not in (0, 4)):
+                continue
+            for n in (1, 2, 3):
+                for miss in itertools.product([False, True], repeat=n):
+                    c = json.loads(json.dumps(proto))
+                    if fn in ("loc", "speed"):
+                        pts = [gen_qc.GEO_PTS[(rep + i) % len(gen_qc.GEO_PTS)] for i in range(n)]
+                        c["lon"] = [NA if m else p_[0] for p_, m in zip(pts, miss)]
+                        c["lat"] = [NA if m else p_[1] for p_, m in zip(pts, miss)]
+                        c["hop"] = gen_qc.hops(c["lon"], c["lat"])
+                        c["t"] = [3600 * i for i in range(n)] if fn == "speed" else []
+                    else:
+                        c["x"] = [NA if m else (i * 2 + rep) % 5 for i, m in enumerate(miss)]
+                        if fn in ("roc", "flat", "att"):
+                            c["t"] = [60 * i for i in range(n)]
+                        if fn == "clim":
+                            c["t"] = [1577836800 + 86400 * 40 * i for i in range(n)]
+                            c["z"] = [5] * n if c["z"] else []
+                        if fn == "dens":
+                            c["z"] = [NA if (miss[(i + 1) % n] and rep % 2) else i + 1 for i in range(n)]
+                        if fn == "att":
+                            c["p"]["minperiod"] = NA
+                    rec.session([({"kind": "base", "i": 0, "k": 0}, c)], CONCS[rep % 2])
+
+
 def extra_missing_markers(ctx, rec):
     """C02: the three documented missing markers -- None, NaN and masked elements (also mixed within one masked array)"""
     g = gen_qc.Gen(ctx.seed + 67, size=ctx.pick(8, 14))
@@ -639,6 +675,30 @@ def extra_long_series(ctx, rec):
             rec.session(steps, CONCS[rep % 2])
 
 
+def extra_tighten_clim(ctx, rec):
+    """C16: member lists in which an earlier member has a fail span and a later one has none; the later one then gets
+    a fail span of its own (any fail span is stricter than none), also a wide one that fails nothing"""
+    g = gen_qc.Gen(ctx.seed + 149, size=ctx.pick(6, 10))
+    r = g.r
+    for rep in range(ctx.pick(60, 400)):
+        c = g.clim(absolute_only=True)
+        n = len(c["x"])
+        if n == 0 or len(c["t"]) != n:
+            continue
+        lo, hi = min(c["t"]) - 86400, max(c["t"]) + 86400
+        m1 = {"tspan": [lo, hi], "vspan": [0, 1], "fspan": sorted([r.randint(-2, 0), r.randint(1, 2)]), "zspan": [], "period": ""}
+        m2 = {"tspan": [lo, hi] if rep % 3 else [lo, (lo + hi) // 2], "vspan": sorted([r.randint(-4, 0), r.randint(1, 4)]),
+              "fspan": [], "zspan": [], "period": ""}
+        c["p"]["members"] = [m1, m2] if rep % 4 else [m1, m2, dict(m2, vspan=[-1, 2])]
+        steps = [({"kind": "base", "i": 0, "k": 0}, c)]
+        for k, fs in enumerate(([-5, 5], [-50, 50], sorted([r.randint(-5, -3), r.randint(3, 5)]))):
+            d = json.loads(json.dumps(c))
+            for m in d["p"]["members"][1:]:
+                m["fspan"] = list(fs)
+            steps.append(({"kind": "tighten", "i": 0, "k": k}, d))
+        rec.session(steps, CONCS[rep % 2])
+
+
 def extra_far_origins(ctx, rec):
     """C17: the same relative time axis on origins centuries apart (a shift by a constant too large for the model's
     integers, so it is expressed through the concretisation): 1800, 1970, 2020, 2200 -- where nanosecond stamps leave
@@ -791,7 +851,7 @@ PLAN = {
                     [M("missing_a", ["gross", "valid", "spike", "roc", "flat", "loc", "clim"], [], 5, big=True, budget=120000),
                      M("missing_b", ["att", "speed", "dens"], [], 4, budget=120000)]),
             "random": {"fns": NOPRESS, "count": (400, 5000), "kinds": [], "size": (8, 24)},
-            "extra": [extra_long_series, extra_missing_markers]},
+            "extra": [extra_long_series, extra_missing_markers, extra_short_missing]},
     "C03": {"repo_fns": ["gross", "valid"], "mc": T([M("range", ["gross", "valid"], ["shiftboth", "recall"], 1, budget=14000)],
                     [M("range", ["gross", "valid"], ["shiftboth", "tighten"], 1, big=True, budget=150000)]),
             "random": {"fns": ["gross", "valid"], "count": (500, 6000), "kinds": ["recall", "shiftboth"], "size": (10, 30)},
@@ -836,7 +896,7 @@ PLAN = {
                     [M("tighten_a", ["gross", "valid", "spike", "roc", "flat", "loc"], ["tighten"], 3, big=True, budget=120000),
                      M("tighten_b", ["att", "dens", "speed", "clim"], ["tighten"], 2, budget=120000)]),
             "random": {"fns": NOPRESS, "count": (500, 8000), "kinds": ["tighten", "tighten", "tighten"], "size": (8, 24)},
-            "extra": [extra_tighten_boxes]},
+            "extra": [extra_tighten_boxes, extra_tighten_clim]},
     "C17": {"mc": T([M("transforms", NOPRESS, ["shiftv", "negate", "shiftt", "shiftboth", "reverse"], 2, budget=14000),
                      M("locality", ["spike", "roc", "flat", "dens", "gross", "loc"], ["perturb"], 3, budget=10000)],
                     [M("transforms", NOPRESS, ["shiftv", "negate", "shiftt", "shiftboth", "reverse"], 3, budget=120000),
